@@ -8,6 +8,7 @@ use vstd::std_specs::cmp::*;
 use std::sync::atomic::AtomicU32;
 use std::sync::atomic::AtomicBool;
 use std::sync::Arc;
+use std::sync::atomic;
 verus! {
 
 // ---------------------------------------------------------------------------
@@ -20,6 +21,7 @@ pub struct World {
     pub fs: Map<Seq<char>, Seq<u8>>,        // durable content of every path that exists
     pub orig: Map<Seq<char>, Seq<u8>>,      // fs at the start of the run (never changes)
     pub protected: Set<Seq<char>>,          // in-scope source files found by discovery
+    pub files: Seq<Seq<char>>,              // the same, in discovery order (CodeFinder.code_files paths)
     pub intended: Map<Seq<char>, Seq<u8>>,  // ghost: complete new content declared when a file's edit begins
     pub check_mode: bool,                   // tied to ProgArgs.check
     pub counter: int,                       // the run's single ID counter, mathematical
@@ -30,7 +32,7 @@ pub struct World {
 }
 
 pub open spec fn same_but_log(a: World, b: World) -> bool {
-    a.fs == b.fs && a.orig == b.orig && a.protected == b.protected && a.intended == b.intended
+    a.fs == b.fs && a.orig == b.orig && a.protected == b.protected && a.files == b.files && a.intended == b.intended
     && a.check_mode == b.check_mode && a.counter == b.counter && a.issued == b.issued
     && a.handlers == b.handlers && a.stop_seen == b.stop_seen
 }
